@@ -241,8 +241,21 @@ func run(c *Ctx) {
 			}
 			kernels(c, p, pls)
 			for _, cf := range cfgs {
+				if !c.Thorough() {
+					// quick tier: skip configurations that cannot behave differently on this picture kind
+					alphaOnly := cf.o.Exact || strings.Contains(cf.name, "alphaq")
+					if strings.HasSuffix(p.kind, "-opaque") && alphaOnly && !cf.o.Lossless {
+						continue
+					}
+					if strings.HasSuffix(p.kind, "-lastpx") && cf.name != "lossless" && cf.name != "lossy" && cf.name != "lossy-exact" {
+						continue
+					}
+				}
 				var ref []byte
 				for i, pl := range pls {
+					if !c.Thorough() && p.w*p.h > 100 && (pl.name == "sub(1,0)noiseA" || pl.name == "sub(0,1)noiseA" || pl.name == "stride+4") {
+						continue
+					}
 					o := cf.o
 					out, err, pan := encodeFresh(pl.img, &o)
 					c.D.Evaluations++
@@ -292,8 +305,172 @@ func run(c *Ctx) {
 			}
 		}
 	}
+	rgbaSubcheck(c, rng.Fork(), cfgs)
 	modelCases(c, rng.Fork())
 	c.Sample(map[string]any{"sizes": sizes, "kinds": kinds, "configs": len(cfgs)})
+}
+
+// ---------------------------------------------------------------------------
+// Sub-check "premultiplied sources" (separate from the NRGBA property proper): for an
+// *image.RGBA the logical picture is color.NRGBAModel.Convert(At(x, y)).  The same premultiplied
+// pixels as an RGBA at the origin, as a sub-image view, with stride padding, through a wrapper
+// forwarding At (generic path), and as an *image.NRGBA holding the converted pixels must give
+// byte-identical files.  Violation keys start with "rgba-".
+
+type wrapRGBA struct{ im *image.RGBA }
+
+func (w wrapRGBA) ColorModel() color.Model { return color.RGBAModel }
+func (w wrapRGBA) Bounds() image.Rectangle { return w.im.Bounds() }
+func (w wrapRGBA) At(x, y int) color.Color { return w.im.RGBAAt(x, y) }
+
+func rgbaSubcheck(c *Ctx, rng *Rand, cfgs []cfgCase) {
+	sizes := [][2]int{{1, 1}, {7, 5}, {17, 19}}
+	if c.Thorough() {
+		sizes = append(sizes, [2]int{16, 16}, [2]int{33, 17})
+	} else {
+		var sub []cfgCase
+		for _, x := range cfgs {
+			switch x.name {
+			case "lossless", "lossless-exact-m0", "lossy", "lossy-exact", "lossy-sharp", "lossy-sharp-exact", "lossy-prep2-dither":
+				sub = append(sub, x)
+			}
+		}
+		cfgs = sub
+	}
+	for _, sz := range sizes {
+		for _, kind := range []string{"opaque", "alpha", "semi"} {
+			w, h := sz[0], sz[1]
+			pm := make([]byte, w*h*4) // premultiplied R G B A
+			for y := 0; y < h; y++ {
+				for x := 0; x < w; x++ {
+					a := 255
+					switch kind {
+					case "alpha":
+						if x < (w+1)/2 && y < (h+1)/2 {
+							a = 0
+						} else if x >= 2*w/3 {
+							a = 1 + rng.Intn(254)
+						}
+					case "semi":
+						a = 1 + rng.Intn(254)
+					}
+					i := (y*w + x) * 4
+					pm[i] = byte(rng.Intn(a + 1))
+					pm[i+1] = byte((x * 255 / (w + 1)) * a / 255)
+					pm[i+2] = byte(rng.Intn(a + 1))
+					pm[i+3] = byte(a)
+				}
+			}
+			set := func(im *image.RGBA) {
+				b := im.Bounds()
+				for y := 0; y < h; y++ {
+					for x := 0; x < w; x++ {
+						q := pm[(y*w+x)*4:]
+						im.SetRGBA(b.Min.X+x, b.Min.Y+y, color.RGBA{q[0], q[1], q[2], q[3]})
+					}
+				}
+			}
+			type pl struct {
+				name string
+				img  image.Image
+				back []byte
+			}
+			var pls []pl
+			o := image.NewRGBA(image.Rect(0, 0, w, h))
+			set(o)
+			pls = append(pls, pl{"rgba-origin", o, o.Pix})
+			parent := image.NewRGBA(image.Rect(0, 0, w+3+2, h+5+3))
+			fillNoise(parent.Pix, rng)
+			sub := parent.SubImage(image.Rect(3, 5, 3+w, 5+h)).(*image.RGBA)
+			set(sub)
+			pls = append(pls, pl{"rgba-sub(3,5)", sub, parent.Pix})
+			stride := w*4 + 7
+			buf := make([]byte, (h-1)*stride+w*4+7)
+			fillNoise(buf, rng)
+			sp := &image.RGBA{Pix: buf[:len(buf):len(buf)], Stride: stride, Rect: image.Rect(0, 0, w, h)}
+			set(sp)
+			pls = append(pls, pl{"rgba-stride+7", sp, buf})
+			wr := image.NewRGBA(image.Rect(0, 0, w, h))
+			set(wr)
+			pls = append(pls, pl{"rgba-wrapper", wrapRGBA{wr}, wr.Pix})
+			conv := image.NewNRGBA(image.Rect(0, 0, w, h))
+			for y := 0; y < h; y++ {
+				for x := 0; x < w; x++ {
+					conv.SetNRGBA(x, y, color.NRGBAModel.Convert(o.At(x, y)).(color.NRGBA))
+				}
+			}
+			pls = append(pls, pl{"nrgba-of-converted", conv, conv.Pix})
+			sums := make([]uint64, len(pls))
+			for i := range pls {
+				sums[i] = sum(pls[i].back)
+			}
+			for _, cf := range cfgs {
+				outs := make([][]byte, len(pls))
+				for i, p := range pls {
+					oo := cf.o
+					out, err, pan := encodeFresh(p.img, &oo)
+					c.D.Evaluations++
+					if pan != "" || err != nil {
+						c.Violate("rgba-encode-failed-"+p.name, fmt.Sprintf("webp.Encode failed: %v %s", err, pan),
+							map[string]any{"picture": fmt.Sprintf("premultiplied %s %dx%d", kind, w, h), "premultiplied_rgba_hex": hex.EncodeToString(pm), "config": cf.name, "placement": p.name})
+						continue
+					}
+					outs[i] = out
+				}
+				const refIdx = 3 // rgba-wrapper: the generic At() path defines the picture
+				if outs[refIdx] == nil || outs[0] == nil {
+					continue
+				}
+				mode := "lossy"
+				if cf.o.Lossless {
+					mode = "lossless"
+				}
+				al := "opaque"
+				if kind != "opaque" {
+					al = "alpha"
+				}
+				ex, sh := "", ""
+				if cf.o.Exact {
+					ex = "-exact"
+				}
+				if cf.o.UseSharpYUV {
+					sh = "-sharp"
+				}
+				cmp := func(i, j int, key, desc string) {
+					if outs[i] == nil || outs[j] == nil {
+						return
+					}
+					c.Count("rgba_comparisons")
+					c.Nontrivial(fmt.Sprintf("rgba|%s|%dx%d|%s|%s|%s", kind, w, h, cf.name, pls[i].name, pls[j].name))
+					if bytes.Equal(outs[i], outs[j]) {
+						return
+					}
+					o2, o3 := cf.o, cf.o
+					ai, _, _ := encodeFresh(pls[i].img, &o2)
+					aj, _, _ := encodeFresh(pls[j].img, &o3)
+					if !bytes.Equal(ai, outs[i]) || !bytes.Equal(aj, outs[j]) {
+						c.Count("unstable_encoder_output_skipped")
+						return
+					}
+					c.Violate(key, fmt.Sprintf("%s: %s gives %d bytes, %s gives %d bytes (first difference at %d)", desc, pls[i].name, len(outs[i]),
+						pls[j].name, len(outs[j]), firstDiff(outs[i], outs[j])),
+						map[string]any{"picture": fmt.Sprintf("premultiplied %s %dx%d", kind, w, h), "premultiplied_rgba_hex": hex.EncodeToString(pm),
+							"config": cf.name, "placement_a": pls[i].name, "placement_b": pls[j].name})
+				}
+				// (a) storage of the premultiplied pixels: sub-image / stride padding vs origin
+				cmp(1, 0, fmt.Sprintf("rgba-placement-bytes-differ-%s-%s-subimage", mode, al), "premultiplied source, same pixels, different placement")
+				cmp(2, 0, fmt.Sprintf("rgba-placement-bytes-differ-%s-%s-stridepad", mode, al), "premultiplied source, same pixels, different placement")
+				// (b) fast path vs the generic At() path, and vs an NRGBA holding the converted picture
+				cmp(0, refIdx, fmt.Sprintf("rgba-fastpath-vs-generic-%s%s%s-%s", mode, ex, sh, al), "premultiplied source: *image.RGBA fast path vs generic At() path")
+				cmp(4, refIdx, fmt.Sprintf("rgba-converted-nrgba-vs-generic-%s%s%s-%s", mode, ex, sh, al), "NRGBA holding NRGBAModel.Convert(At) vs generic At() path of the RGBA source")
+			}
+			for i := range pls {
+				if sum(pls[i].back) != sums[i] {
+					c.Violate("rgba-source-modified-"+pls[i].name, "Encode modified the caller's pixel buffer", map[string]any{"placement": pls[i].name})
+				}
+			}
+		}
+	}
 }
 
 func placementClass(name string) string {
